@@ -14,7 +14,7 @@ RULE = ("per class: (a) joint assignments to all CDB fields at once (service act
         "alphabet; the spec encoder turns the assignment into bytes, then unmarshall_cdb(bytes) must equal the assignment, "
         "marshall_cdb(assignment) and marshall_cdb(unmarshall_cdb(bytes)) must equal the bytes, and relative to the baseline only the "
         "deviating fields may change; (b) every CDB built by the constructor for argument tuples with at most k-1 deviations is decoded "
-        "and re-encoded. Non-trivial = at least one deviation; distinct = distinct (class, mode, assignment).")
+        "and re-encoded; (c) 13 fresh processes whose first library action is a base-class marshall / build / decode with an operation code of each length group, a refused marshall or a refused construction, followed by the first-ever dictionary-level encode/decode of every class at both baselines. Non-trivial = at least one deviation; distinct = distinct (class, mode, assignment).")
 ASSUMPTIONS = [
     "oracle: vf/spec/cdb.py + vf/spec/bits.py",
     "each class is used the way the repository's tests use it: an instance of the class is constructed immediately before its marshall_cdb/unmarshall_cdb are called (isolation between classes is C09's subject)",
@@ -35,8 +35,63 @@ def lib_fields(name):
     return f
 
 
+MAXTASKS = 1          # every partition in a freshly forked process (the first-use partitions need a process in which nothing was marshalled yet)
+N_FIRST = 13
+
+
 def partitions(tier):
-    return [[n] for n in S.CLASSES]
+    return [[n] for n in S.CLASSES] + [["first-use", i] for i in range(N_FIRST)]
+
+
+def first_action(i):
+    """what happens in the process BEFORE any command class marshals for the first time"""
+    from pyscsi.pyscsi.scsi_command import SCSICommand
+    from pyscsi.pyscsi.scsi_opcode import OpCode
+    ops = [0x00, 0x28, 0xA8, 0x88]
+    if i == 0:
+        return "nothing"
+    if 1 <= i <= 4:
+        SCSICommand.marshall_cdb({"opcode": ops[i - 1]})
+        return "SCSICommand.marshall_cdb({'opcode': %#04x}) through the base class" % ops[i - 1]
+    if 5 <= i <= 8:
+        SCSICommand(OpCode("X", ops[i - 5], {}), 0, 0).build_cdb(opcode=ops[i - 5])
+        return "SCSICommand(OpCode(%#04x), 0, 0).build_cdb(opcode=...) on a base-class instance" % ops[i - 5]
+    if i == 9:
+        SCSICommand.unmarshall_cdb(bytearray(16))
+        return "SCSICommand.unmarshall_cdb(16 zero bytes) through the base class"
+    if i == 10:
+        try:
+            SCSICommand.marshall_cdb({"opcode": 0x7F})
+        except Exception:   # noqa: BLE001
+            pass
+        return "a refused SCSICommand.marshall_cdb({'opcode': 0x7f})"
+    if i == 11:
+        try:
+            CS.get_class("Read10")(CS.get_opcode("sbc", "READ_10"), 0, 1, 1)
+        except Exception:   # noqa: BLE001
+            pass
+        return "a refused Read10 construction (no block size)"
+    try:
+        CS.get_class("Inquiry").marshall_cdb({})
+    except Exception:   # noqa: BLE001
+        pass
+    return "Inquiry.marshall_cdb({}) (raises KeyError)"
+
+
+def run_first_use(i):
+    """-> list of (case, violations): after the first action every class's very first use is a dictionary-level encode/decode"""
+    what = first_action(i)
+    res = []
+    for name in S.CLASSES:
+        cls = CS.get_class(name)
+        for basekind in ("ones", "zeros"):
+            vals = base_of(name, basekind)
+            try:
+                v = check_assignment(name, cls, vals)
+            except Exception as e:   # noqa: BLE001
+                v = [("raises/%s" % name, "%s: %s %r" % (name, type(e).__name__, e))]
+            res.append((name, basekind, [("first_use/" + k, "first use of %s in a process after %s: %s" % (name, what, w)) for k, w in v]))
+    return res
 
 
 def base_of(name, basekind):
@@ -99,6 +154,8 @@ def check_assignment(name, cls, vals, basevals=None, dev=()):
 
 
 def run_case(case):
+    if case[0] == "first-use":
+        return [x for (_, _, v) in run_first_use(case[1]) for x in v]
     name, mode = case[0], case[1]
     cls, inst, op = fresh_instance(name)
     if mode == "assign":
@@ -158,6 +215,14 @@ def replay(case):
 def run_partition(part, tier, seed):
     acc = Acc(seed)
     name = part[0]
+    if name == "first-use":
+        case = ["first-use", part[1]]
+        for (n_, bk, v) in run_first_use(part[1]):
+            acc.case(case, nontrivial=True, key=("first-use", part[1], n_, bk))
+            for k, what in v:
+                acc.violation(k, what, case)
+            acc.outcome(("first-use", part[1], n_, bk, tuple(k for k, _ in v)))
+        return acc
     b = bounds(tier)
     cls, inst, op = fresh_instance(name)
     flds = lib_fields(name)
